@@ -135,6 +135,8 @@ def build_model(content):
     from vlib import fexpr
 
     def f(d):
+        if "py" in d:  # a user-defined function of that Python name, compiled from the body (see local_fn)
+            return local_fn(d["py"], lib()[d["fn"]]["args"], d["e"])
         return getattr(fns, d["fn"])
 
     def value(v):
@@ -159,6 +161,40 @@ def build_model(content):
                 model=fexpr.compile_multi(v["es"], len(v["args"])), args=list(v["args"]), outputs=list(v["outs"]),
                 stoichiometries={fl: {c: fexpr.to_float(Fraction(cj["c"])) for c, cj in st} for fl, st in v["st"]}))
     return m
+
+
+_local_counter = [0]
+
+
+def _py_src(e, names):
+    t = e[0]
+    if t == "a":
+        return names[e[1]]
+    if t == "c":
+        v = float(Fraction(e[1]))
+        return repr(v) if v >= 0 else f"({v!r})"
+    if t == "neg":
+        return f"(-{_py_src(e[1], names)})"
+    if t == "pow":
+        return f"({_py_src(e[1], names)} ** {e[2]})"
+    return f"({_py_src(e[1], names)} {t} {_py_src(e[2], names)})"
+
+
+def local_fn(pyname, argnames, e):
+    """a real Python function `def <pyname>(<argnames>): return <body>` as a user script would define it (module
+    `__main__`, source registered with linecache so that inspect.getsource works).  Different bodies may share one
+    name: factories and re-run notebook cells produce exactly that."""
+    import linecache
+
+    _local_counter[0] += 1
+    src = f"def {pyname}({', '.join(argnames)}):\n    return {_py_src(e, argnames)}\n"
+    filename = f"<mxlverif-c12-{pyname}-{_local_counter[0]}>"
+    linecache.cache[filename] = (len(src), None, src.splitlines(True), filename)
+    ns: dict = {}
+    exec(compile(src, filename, "exec"), ns)  # noqa: S102
+    fn = ns[pyname]
+    fn.__module__ = "__main__"
+    return fn
 
 
 def with_decl(content):
@@ -201,13 +237,65 @@ def real_worker(case):
     from mxlpy.symbolic import to_symbolic_model
 
     content = with_decl(case["content"])
-    out = {}
     try:
         m = build_model(content)
         m.get_initial_conditions()
     except Exception as e:  # noqa: BLE001
         return {"build": _exc(e)}
     pts = [(float(Fraction(p["t"])), [float(Fraction(v)) for v in p["x"]]) for p in case["points"]]
+    out = observe(m, content, pts)
+    if "then" in case:
+        # session: the same Model object is edited and converted again (same process, same names)
+        try:
+            content2 = with_decl(apply_edit(case["content"], case["then"]))
+            edit_model(m, case["then"])
+            m.get_initial_conditions()  # same gate as at build time (e.g. division by zero at the initial state)
+            out["then"] = observe(m, content2, pts)
+        except Exception as e:  # noqa: BLE001
+            out["then"] = {"build": _exc(e)}
+    return out
+
+
+def apply_edit(content, edit):
+    """the content after the edit (what M and S are asked about)"""
+    c = copy.deepcopy(content)
+    if edit["op"] == "update_reaction":
+        for k, v in c["rxns"]:
+            if k == edit["name"]:
+                st = v["st"]
+                v.clear()
+                v.update(copy.deepcopy(edit["fn"]))
+                v["st"] = st
+    elif edit["op"] == "update_derived":
+        for k, v in c["derived"]:
+            if k == edit["name"]:
+                v.clear()
+                v.update(copy.deepcopy(edit["fn"]))
+    else:
+        raise ValueError(edit)
+    return c
+
+
+def edit_model(m, edit):
+    from mxlpy import fns
+
+    d = edit["fn"]
+    fn = local_fn(d["py"], lib()[d["fn"]]["args"], d["e"]) if "py" in d else getattr(fns, d["fn"])
+    if edit["op"] == "update_reaction":
+        m.update_reaction(edit["name"], fn=fn, args=list(d["args"]))
+    else:
+        m.update_derived(edit["name"], fn=fn, args=list(d["args"]))
+
+
+def observe(m, content, pts):
+    import logging
+
+    import sympy
+
+    from mxlpy import Simulator
+    from mxlpy.symbolic import to_symbolic_model
+
+    out = {}
     nv = len(content["vars"])
     out["rhs"] = []
     for t, xs in pts:
@@ -230,10 +318,16 @@ def real_worker(case):
             pv = [float(sm.parameter_values[k]) for k in sm.parameters]
             f_eqs = sympy.lambdify((vs, ps), sympy.Matrix(sm.eqs) if sm.eqs else sympy.Matrix(0, 1, []))
             f_jac = sympy.lambdify((vs, ps), sm.jacobian())
-            out["var_order"] = [str(s) for s in vs]
+            out["var_order"] = {"symbolic": [str(s) for s in vs], "model": list(m.get_variable_names()),
+                                "initial_conditions": list(m.get_initial_conditions())}
+            names = [k for k, _ in content["vars"]]
             for _, xs in pts:
                 try:
-                    out["points"].append({"eqs": _vals(f_eqs(xs, pv)), "jac": _mat(f_jac(xs, pv), nv)})
+                    # symbols are bound BY NAME: the equations are judged in equation order, the Jacobian's
+                    # columns in the order of `variables`, whatever that is
+                    val = dict(zip(names, xs))
+                    xv = [val[str(s)] for s in vs]
+                    out["points"].append({"eqs": _vals(f_eqs(xv, pv)), "jac": _mat(f_jac(xv, pv), nv)})
                 except Exception as e:  # noqa: BLE001
                     out["points"].append(_exc(e))
         except Exception as e:  # noqa: BLE001
@@ -285,10 +379,13 @@ def real_worker(case):
 
                     out["jacfn_upd"] = [{"closure": _try(lambda: jf2(t, xs)), "fresh": _try(lambda: f_jac2(xs, pv2))}
                                         for t, xs in pts]
+                    out["upd"] = [k, num(old * 2.0 + 1.0)]
                 except ZeroDivisionError:
                     out["jacfn_upd"] = "skipped: division by zero at the updated parameter value"
                 except Exception as e:  # noqa: BLE001
                     out["jacfn_upd"] = _exc(e)
+                finally:
+                    m.update_parameter(k, old)  # the Model object may be observed again (sessions)
     except Exception as e:  # noqa: BLE001
         out["jacfn_present"] = _exc(e)
     finally:
@@ -371,9 +468,11 @@ def gen_content(rng, *, rational=False, p_odd=0.25, stiff=False):
         extra_pool.append("q0")
     if odd and rng.random() < 0.3:
         extra_pool.append("time")
-    if odd and rng.random() < 0.3 and nv >= 2:
-        # a variable whose initial value is computed (still a symbol)
-        vars_[-1] = [vars_[-1][0], {"ia": _mk(rng, rng.choice(["twice", "add", "mul"]), pnames)}]
+    if nv >= 2 and rng.random() < (0.3 if odd else 0.12):
+        # a variable whose initial value is computed (still a symbol), declared anywhere among the others
+        i = rng.randrange(nv)
+        others = [k for j, (k, _) in enumerate(vars_) if j != i]
+        vars_[i] = [vars_[i][0], {"ia": _mk(rng, rng.choice(["twice", "add", "mul"]), pnames + others)}]
 
     derived, rxns = [], []
     nd = rng.randint(0, 4)
@@ -417,9 +516,53 @@ def gen_content(rng, *, rational=False, p_odd=0.25, stiff=False):
         surs.append(["s0", {"args": [rng.choice(vnames)], "outs": outs, "es": [["*", ["a", 0], ["c", "2"]]], "st": st}])
     if stiff:
         pars[0][1] = {"v": "4096"}
-    for lst in (derived, rxns, pars):
+    for lst in (derived, rxns, pars, vars_):
         rng.shuffle(lst)
     return {"vars": vars_, "pars": pars, "derived": derived, "rxns": rxns, "surs": surs}
+
+
+PYNAMES = ["rate", "fn", "v"]
+
+
+def _fns_of(content):
+    for _, v in content["derived"]:
+        yield v
+    for _, r in content["rxns"]:
+        yield r
+        for _, cj in r["st"]:
+            if "c" not in cj:
+                yield cj
+    for _, v in content["vars"] + content["pars"]:
+        if "ia" in v:
+            yield v["ia"]
+
+
+def localise(rng, content):
+    """the same model written with user-defined functions: every function is a `def` of the library body under a
+    Python name from a small pool (what a factory / a notebook gives: several different functions called `rate`)"""
+    for d in _fns_of(content):
+        d["py"] = rng.choice(PYNAMES)
+    return content
+
+
+def gen_session(rng, *, local, rational=False):
+    """a model, then an edit of one reaction / derived quantity (new rate law; when `local`, a re-defined function
+    of the SAME Python name), converted again on the same Model object"""
+    c = gen_content(rng, rational=rational, p_odd=0.0)
+    if local:
+        localise(rng, c)
+    base = [k for k, v in c["vars"]] + [k for k, v in c["pars"] if "v" in v]
+    if c["derived"] and rng.random() < 0.4:
+        k, old = rng.choice(c["derived"])
+        new = _mk(rng, rng.choice(DER_FNS_POLY + (DER_FNS_RAT if rational else [])), base)
+        op = "update_derived"
+    else:
+        k, old = rng.choice(c["rxns"])
+        new = _mk(rng, rng.choice(RATE_FNS_POLY + (RATE_FNS_RAT if rational else [])), base)
+        op = "update_reaction"
+    if "py" in old:
+        new["py"] = old["py"]
+    return {"content": c, "points": gen_points(rng, c), "then": {"op": op, "name": k, "fn": new}}
 
 
 def _avail(names):
@@ -516,11 +659,39 @@ def pool():
     return _pool
 
 
+def upd_of(content):
+    """the parameter update of the Jacobian-after-update round: first plain parameter, value 2v+1"""
+    for k, v in content["pars"]:
+        if "v" in v:
+            return [k, num(float(Fraction(v["v"])) * 2.0 + 1.0)]
+    return None
+
+
+def _req(content, points):
+    r = {"op": "c12", "content": wire_content(content), "points": points}
+    u = upd_of(content)
+    if u is not None:
+        r["upd"] = u
+    return r
+
+
 def evaluate(cases, use_driver=True):
+    """-> [(R, M)]; for a session case M["then"] is the model's answer about the content after the edit"""
     Rs = pool().map(real_worker, cases, chunksize=4)
     if use_driver:
-        Ms = driver.call_batch([{"op": "c12", "content": wire_content(c["content"]), "points": c["points"]}
-                                for c in cases])
+        reqs, idx = [], []
+        for i, c in enumerate(cases):
+            reqs.append(_req(c["content"], c["points"]))
+            idx.append((i, False))
+            if "then" in c:
+                reqs.append(_req(apply_edit(c["content"], c["then"]), c["points"]))
+                idx.append((i, True))
+        Ms = [None] * len(cases)
+        for (i, second), m in zip(idx, driver.call_batch(reqs)):
+            if second:
+                Ms[i]["then"] = m
+            else:
+                Ms[i] = m
     else:
         Ms = [None] * len(cases)
     return list(zip(Rs, Ms))
@@ -564,9 +735,12 @@ def _status(r):
     return "ok" if "ok" in r else "err"
 
 
-def judge_case(ctx, case, R, M):
-    content = case["content"]
-    sub = {"content": content, "points": case["points"]}
+def judge_case(ctx, case, R, M, content=None, step=""):
+    """`content` = the content R and M are about (for the second step of a session: after the edit); the replay
+    is always the whole case"""
+    content = content or case["content"]
+    extra = {"then": case["then"]} if "then" in case else {}
+    sub = {"content": case["content"], "points": case["points"], **extra}
     if "build" in R:
         # the generator only emits models the numeric code accepts; a model that does not build says nothing
         ctx.hist["skipped_build_" + R["build"]["err"][0]] = ctx.hist.get("skipped_build_" + R["build"]["err"][0], 0) + 1
@@ -583,9 +757,19 @@ def judge_case(ctx, case, R, M):
         ctx.hist["lean_convertible"] = ctx.hist.get("lean_convertible", 0) + 1
         if m_status != "ok" or S_status != "ok":
             ctx.violation(sub, {"M": M["sym"], "S": S_status}, "SContent.convertible holds but the conversion fails")
+    if "var_order" in R:
+        decl = [k for k, _ in content["vars"]]
+        ctx.judge(sub, R["var_order"], {"symbolic": decl, "model": decl, "initial_conditions": decl},
+                  None if M is None or "ok" not in M["jacargs"] else
+                  {"symbolic": M["jacargs"]["ok"][0], "model": M["jacargs"]["ok"][0], "initial_conditions": M["jacargs"]["ok"][0]},
+                  what="variable order: symbolic variables = equations = numeric model = declaration order")
     # 2. the simulator: a Jacobian exactly when the conversion works, a warning otherwise
     present = R.get("jacfn_present")
     if not isinstance(present, bool):
+        if isinstance(present, dict) and present.get("err", [None])[0] == "ZeroDivisionError":
+            # the simulator's test run divides by zero at the initial state: outside the model (as at build time)
+            ctx.hist["skipped_simulator_ZeroDivisionError"] = ctx.hist.get("skipped_simulator_ZeroDivisionError", 0) + 1
+            return
         ctx.violation(sub, present, "Simulator(use_jacobian=True) raised")
         return
     ctx.judge(sub, present, S_status == "ok", None if M is None else M["has_jac"],
@@ -604,19 +788,28 @@ def judge_case(ctx, case, R, M):
 
             if isinstance(u["closure"], str) or isinstance(u["fresh"], str):
                 if u["closure"] != u["fresh"]:
-                    ctx.violation({"content": content, "points": [case["points"][i]]}, u,
+                    ctx.violation({"content": case["content"], "points": [case["points"][i]], **extra}, u,
                                   "compiled Jacobian and fresh symbolic Jacobian disagree on definedness after update_parameter")
                     break
                 continue
+            if M is not None and R.get("upd") == upd_of(content):
+                mp_u = M["points"][i]
+                if mp_u["jacfn_fresh"] is not None and "ok" in mp_u["jacfn_fresh"] and mp_u["jacfn_fresh"]["ok"] is not None:
+                    s_u = mp_u["jacfn_fresh"]["ok"]
+                    m_u = mp_u["jacfn_upd"]
+                    ctx.judge({"content": case["content"], "points": [case["points"][i]], **extra},
+                              _snap(u["closure"], s_u, exact), s_u, m_u["ok"] if m_u and "ok" in m_u else m_u,
+                              what="installed Jacobian closure called after Simulator.update_parameter = D of the updated model")
+                    ctx.hist["jacfn_after_update_vs_model"] = ctx.hist.get("jacfn_after_update_vs_model", 0) + 1
             a, b = fl(u["closure"]), fl(u["fresh"])
             if len(a) != len(b) or any(not (abs(x - y) <= 1e-9 * max(1.0, abs(x), abs(y))) for x, y in zip(a, b)):
-                ctx.violation({"content": content, "points": [case["points"][i]]}, u,
+                ctx.violation({"content": case["content"], "points": [case["points"][i]], **extra}, u,
                               "compiled Jacobian does not follow Simulator.update_parameter (stale parameter values)")
                 break
         ctx.hist["jacfn_after_update_checked"] = ctx.hist.get("jacfn_after_update_checked", 0) + 1
     # 3. values
     for i, p in enumerate(case["points"]):
-        psub = {"content": content, "points": [p]}
+        psub = {"content": case["content"], "points": [p], **extra}
         mp_ = None if M is None else M["points"][i]
         # numeric right-hand side: real vs numeric core (C01's tie, repeated on these models)
         if mp_ is not None:
@@ -654,6 +847,14 @@ def judge_case(ctx, case, R, M):
                               what="compiled Jacobian closure of the simulator")
                 else:
                     ctx.judge(psub, rj, sv["jac"], mjv, what="compiled Jacobian closure of the simulator")
+
+
+def judge_all(ctx, case, R, M):
+    judge_case(ctx, case, R, M)
+    if "then" in case and "then" in R:
+        ctx.hist["session_second_step"] = ctx.hist.get("session_second_step", 0) + 1
+        judge_case(ctx, case, R["then"], None if M is None else M.get("then"),
+                   content=apply_edit(case["content"], case["then"]), step="after edit")
 
 
 def judge_traj(ctx, case, T_):
@@ -728,13 +929,19 @@ def run(ctx):
             c2 = reorder(rng, c)
             gen.append({"content": c2, "points": gen[-1]["points"]})
     cases += gen
+    # user-defined functions sharing Python names, and sessions (edit, convert again on the same object)
+    for i in range(ctx.n(40, 600)):
+        c = localise(rng, gen_content(rng, rational=(i % 3 == 2), p_odd=0.1))
+        cases.append({"content": c, "points": gen_points(rng, c)})
+    for i in range(ctx.n(40, 600)):
+        cases.append(gen_session(rng, local=(i % 2 == 0), rational=(i % 3 == 2)))
     if not ctx.proof_ok:
         ctx.notes.append("proof broken: the run below is the failing-input search")
     B = 128
     for i in range(0, len(cases), B):
         chunk = cases[i:i + B]
         for case, (R, M) in zip(chunk, evaluate(chunk, ctx.driver_ok)):
-            judge_case(ctx, case, R, M)
+            judge_all(ctx, case, R, M)
         if len(ctx.violations) > 20:
             break
     piecewise_stratum(ctx)
@@ -802,4 +1009,4 @@ def replay(ctx, rp):
     case.setdefault("points", [])
     (R, M), = evaluate([case], ctx.driver_ok)
     print("R =", R, "\nM =", M, "\nS(status) =", should_convert(case["content"]))
-    judge_case(ctx, case, R, M)
+    judge_all(ctx, case, R, M)
